@@ -17,6 +17,7 @@ INVALID_UTF8 = [b"\x80", b"\xbf", b"\xc3", b"\xe2\x82", b"\xf0\x9f\x98", b"\xc0\
 CONTENT_CLASSES = ["empty", "ascii", "random", "utf8", "invalid", "mixed", "large"]
 
 
+
 def rng_for(*parts):
     return random.Random(":".join(str(p) for p in parts))
 
@@ -25,7 +26,7 @@ def content(cls, rng, large_max=20000):
     if cls == "empty":
         return b""
     if cls == "ascii":
-        n = rng.choice([1, 2, 5, 17, 100, 300])
+        n = rng.choice([1, 2, 5, 17, 100, 300, 512, 1024, 2048])
         return bytes(rng.choice(b"abcdefghijklmnopqrstuvwxyz0123456789 \n\r\t") for _ in range(n))
     if cls == "random":
         n = rng.choice([1, 3, 24, 25, 100, 1000])
@@ -52,12 +53,18 @@ def partition(data, rng, style=None, cap=None):
     n = len(data)
     if n == 0:
         return []
-    style = style or rng.choice(["one", "bytes", "random", "two", "random"])
+    style = style or rng.choice(["one", "bytes", "random", "two", "random", "blocks"])
     cap = cap or n
     if style == "one":
         sizes = [n]
     elif style == "bytes" and n <= 400:
         sizes = [1] * n
+    elif style == "blocks":
+        # payload lengths that are multiples of the USB / page sizes
+        b = rng.choice([512, 512, 1024, 4096])
+        sizes = [b] * (n // b) + ([n % b] if n % b else [])
+        if not sizes:
+            sizes = [n]
     elif style == "two":
         k = rng.randint(1, n - 1) if n > 1 else 1
         sizes = [k, n - k] if n > 1 else [1]
@@ -108,6 +115,7 @@ def common_dims(rng, idx=None):
         "empty_rate": rng.choice([0.0, 0.0, 0.2, 0.5]),
         "noise": list(rng.choice(NOISES)),
         "early_reply": rng.random() < 0.25,
+        "dev_version": rng.choice([0x01000000, 0x01000000, 0x01000001, 1]),   # what the device announces in its CNXN (the host speaks 0x01000000)
     }
 
 
@@ -125,6 +133,7 @@ def make_session(impl, dims, seed, connect=True, **kw):
     s = session_mod.Session(impl, sim=sim, rng=rng, frag=dims.get("frag", "whole"), empty_rate=dims.get("empty_rate", 0.0), **kw)
     s.dims = dims
     sim.sync_plan.early_reply = bool(dims.get("early_reply", False))
+    sim.version = dims.get("dev_version", 0x01000000)
     if connect:
         out = s.call("connect")
         if not out.ok or out.value is not True:
